@@ -199,6 +199,11 @@ def harnesses(ctx):
                 kernel="replay-only: same assertion as c11_skip_* at a bound small enough for Kani's concrete-playback mode", tiers=("replay-only",), timeout_s=900, mem_gb=12)
         for k, f in (("str", "skip_u16_string"), ("wid", "skip_wid_array"), ("u32", "skip_u32_array"))
     ] + [
+        Harness("c11_skip_width_" + k, "dic__read__mod", [f], bound,
+                kernel="C11-a' width contract of the skip function for EVERY value of the length prefix (long arrays / strings are out of reach of the parse-vs-skip harnesses)",
+                assumptions=["the record is complete (the buffer holds the whole field)"], timeout_s=900, mem_gb=12)
+        for k, f, bound in (("wid_array", "skip_wid_array", "every item count 0..255, any tail"), ("u32_array", "skip_u32_array", "every item count 0..255, any tail"),
+                            ("u16_string", "skip_u16_string", "both forms of the length prefix, every unit count 0..32767, any tail"))
     ]
     PARSE_FNS = ["WordInfoParser::subset", "WordInfoParser::parse", "parse_field!", "utf16_string_parser", "skip_u16_string", "string_length_parser",
                  "u32_wid_array_parser", "skip_wid_array", "u32_array_parser", "skip_u32_array"]
@@ -240,7 +245,7 @@ EXPLANATION = "Skip widths vs parse widths for all short buffers; the subset clo
 MANIFEST = dict(
     design_ref="DESIGN.md §4 C11",
     technique="bounded model checking (Kani/CBMC/cadical): symbolic field subsets (all 1024) and symbolic record contents through WordInfoParser / the skip functions / InfoSubset::normalize / WordInfo accessors",
-    text=("Solver-decided: (a') for every short buffer each skip function leaves exactly the remainder its parsing twin leaves; (a) for enumerated record layouts, every one of the "
+    text=("Solver-decided: (a') for every short buffer each skip function leaves exactly the remainder its parsing twin leaves, and for EVERY value of the length prefix (0..255 items, 0..32,767 units, both prefix forms) it skips exactly the field's width; (a) for enumerated record layouts, every one of the "
           "1024 subsets and every content byte, each requested field of a subset parse equals the full parse; (b) InfoSubset::normalize is idempotent, monotone, adds only "
           "SURFACE/HEAD_WORD_LENGTH and adds SURFACE whenever a form that falls back to it is requested; (c) through WordInfo's public accessors every requested field equals "
           "its full-load value, including the dictionary form of a word that is its own dictionary form."),
